@@ -54,6 +54,7 @@ type tunnelServer struct {
 }
 
 func (s *tunnelServer) serve(tunnelMetadata metadata.MD) error {
+	defer verifNoteServer(s)()
 	if s.clientAcceptsSettings {
 		go func() {
 			_ = s.stream.Send(&tunnelpb.ServerToClient{
@@ -632,6 +633,7 @@ func (st *tunnelServerStream) serveStream(md interface{}, srv interface{}) {
 
 func (st *tunnelServerStream) finishStream(err error) {
 	st.cancel()
+	verifYield("server.finishing")
 	st.svr.removeStream(st.streamID)
 	st.halfClose(err)
 
